@@ -492,6 +492,44 @@ theorem select_coil_not_invariant : selectCoil 0 0 (gather [1, 0] [3, 4]) ≠ se
 theorem coil_as_channels_not_equivariant :
     coilMix (fun i j => (i : Int) + 2 * j) (gather [1, 0] [3, 4]) ≠ gather [1, 0] (coilMix (fun i j => (i : Int) + 2 * j) [3, 4]) := by decide
 
+
+/-! ## size-dependent chunking of a coil sum -/
+
+/-- **`range(n // k)` chunks sum only the first `(n / k)·k` coils** -/
+theorem chunkSumFloor_eq (k : Nat) (xs : List G) : chunkSumFloor k xs = csum (xs.take (xs.length / k * k)) :=
+  chunkSum_eq_take k _ xs
+
+/-- complete when the chunk size divides the coil count (4, 8, 16 coils with `k = 8` show nothing) … -/
+theorem chunkSumFloor_complete (k : Nat) (xs : List G) (h : xs.length % k = 0) : chunkSumFloor k xs = csum xs := by
+  rw [chunkSumFloor_eq]
+  have : xs.length / k * k = xs.length := by
+    have := Nat.div_add_mod xs.length k
+    rw [h, Nat.add_zero, Nat.mul_comm] at this
+    exact this
+  rw [this, List.take_length]
+
+/-- … **whereas `⌈n / k⌉` chunks (or `torch.split`) always give the full sum**, for every coil count and chunk size -/
+theorem chunkSumCeil_complete (k : Nat) (hk : 0 < k) (xs : List G) : chunkSumCeil k xs = csum xs := by
+  unfold chunkSumCeil
+  rw [chunkSum_eq_take]
+  have h : xs.length ≤ (xs.length + k - 1) / k * k := by
+    have h1 := Nat.div_add_mod (xs.length + k - 1) k
+    have h2 := Nat.mod_lt (xs.length + k - 1) hk
+    rw [Nat.mul_comm] at h1
+    omega
+  rw [List.take_of_length_le h]
+
+/-- hence the complete chunked sum is invariant under every reordering of the coils … -/
+theorem chunkSumCeil_perm_invariant (k : Nat) (hk : 0 < k) {p q : List G} (h : p.Perm q) : chunkSumCeil k p = chunkSumCeil k q := by
+  rw [chunkSumCeil_complete k hk, chunkSumCeil_complete k hk]
+  simpa using csum_perm id h
+
+/-- … and the floor version is not: with 3 coils and chunks of 2 the last coil is dropped, and which coil is last depends on
+the order (witness) -/
+theorem chunkSumFloor_drops_remainder :
+    chunkSumFloor 2 [(1, 0), (2, 0), (4, 0)] = (3, 0) ∧ chunkSumFloor 2 [(4, 0), (1, 0), (2, 0)] = (5, 0) ∧
+      csum [(1, 0), (2, 0), (4, 0)] = (7, 0) := by decide
+
 /-! ## non-vacuity -/
 
 example : Table.wf [⟨"NormUnetModel2d.norm", "mean", 3, [-1], true⟩, ⟨"reduce_operator", "sum", 5, [1], true⟩] = true := by decide
@@ -510,6 +548,9 @@ example : Prim.ok ⟨"x", 1, "cat", 0, [0], 0⟩ = false := by decide
 example : Prim.ok ⟨"x", 0, "mean", 1, [], 0⟩ = false := by decide
 example : Prim.ok ⟨"RIM.forward", 0, "max", 1, [], 1⟩ = true := by decide
 example : Prim.ok ⟨"x", 3, "view", 1, [2], 0⟩ = false := by decide
+example : Prim.ok ⟨"MRILogLikelihood.forward", 8, "loop-chunked", 2, [2, 4, 8], 0⟩ = false := by decide
+example : Prim.ok ⟨"RIM.forward", 8, "if-training", 0, [32], 0⟩ = true := by decide
+example : Prim.ok ⟨"MultiCoil._compute_model_per_coil", 8, "loop-full", 3, [2, 4, 32], 0⟩ = true := by decide
 example : FuncRow.ok ⟨"MultiCoil.forward", [⟨"MultiCoil.forward", 3, "reshape", 2, [2], 0⟩]⟩ = false := by decide
 example : FuncRow.ok ⟨"MultiCoil.forward", [⟨"MultiCoil.forward", 3, "reshape", 2, [2], 0⟩, ⟨"MultiCoil.forward", 3, "reshape", 0, [1], 0⟩]⟩ = true := by decide
 example : batchedPermute [0, 2, 1] [.node [.node [.leaf 1, .leaf 2], .node [.leaf 3, .leaf 4]]] = [.node [.node [.leaf 1, .leaf 3], .node [.leaf 2, .leaf 4]]] := rfl
